@@ -254,6 +254,15 @@ func (e *Engine) onInterest(args ndn.InterestHandlerArgs) {
 }
 
 func (e *Engine) onData(pkt *spec.Data, sigCovered enc.Wire, raw enc.Wire, pitToken []byte) {
+	// Callbacks are collected under the PIT lock and invoked after it is released:
+	// a callback may express Interests itself (the next segment, a retry).
+	var fired []func()
+	defer func() {
+		for _, f := range fired {
+			f()
+		}
+	}()
+
 	e.pitLock.Lock()
 	defer e.pitLock.Unlock()
 
@@ -298,12 +307,15 @@ func (e *Engine) onData(pkt *spec.Data, sigCovered enc.Wire, raw enc.Wire, pitTo
 				panic("[BUG] PIT has empty entry")
 			}
 
-			entry.callback(ndn.ExpressCallbackArgs{
-				Result:     ndn.InterestResultData,
-				Data:       pkt,
-				RawData:    raw,
-				SigCovered: sigCovered,
-				NackReason: spec.NackReasonNone,
+			callback := entry.callback
+			fired = append(fired, func() {
+				callback(ndn.ExpressCallbackArgs{
+					Result:     ndn.InterestResultData,
+					Data:       pkt,
+					RawData:    raw,
+					SigCovered: sigCovered,
+					NackReason: spec.NackReasonNone,
+				})
 			})
 		}
 
@@ -316,6 +328,13 @@ func (e *Engine) onData(pkt *spec.Data, sigCovered enc.Wire, raw enc.Wire, pitTo
 }
 
 func (e *Engine) onNack(name enc.Name, reason uint64) {
+	var fired []func() // invoked after the PIT lock is released (see onData)
+	defer func() {
+		for _, f := range fired {
+			f()
+		}
+	}()
+
 	e.pitLock.Lock()
 	defer e.pitLock.Unlock()
 	n := e.pit.ExactMatch(name)
@@ -326,9 +345,12 @@ func (e *Engine) onNack(name enc.Name, reason uint64) {
 	for _, entry := range n.Value() {
 		entry.timeoutCancel()
 		if entry.callback != nil {
-			entry.callback(ndn.ExpressCallbackArgs{
-				Result:     ndn.InterestResultNack,
-				NackReason: reason,
+			callback := entry.callback
+			fired = append(fired, func() {
+				callback(ndn.ExpressCallbackArgs{
+					Result:     ndn.InterestResultNack,
+					NackReason: reason,
+				})
 			})
 		} else {
 			e.log.Fatalf("PIT has empty entry. This should not happen. Please check the implementation.")
@@ -402,6 +424,13 @@ func (e *Engine) Express(interest *ndn.EncodedInterest, callback ndn.ExpressCall
 
 		n := e.pit.MatchAlways(nodeName)
 		timeoutFunc := func() {
+			var fired []func() // invoked after the PIT lock is released (see onData)
+			defer func() {
+				for _, f := range fired {
+					f()
+				}
+			}()
+
 			e.pitLock.Lock()
 			defer e.pitLock.Unlock()
 			now := e.timer.Now()
@@ -412,9 +441,12 @@ func (e *Engine) Express(interest *ndn.EncodedInterest, callback ndn.ExpressCall
 					newLst = append(newLst, entry)
 				} else {
 					if entry.callback != nil {
-						entry.callback(ndn.ExpressCallbackArgs{
-							Result:     ndn.InterestResultTimeout,
-							NackReason: spec.NackReasonNone,
+						callback := entry.callback
+						fired = append(fired, func() {
+							callback(ndn.ExpressCallbackArgs{
+								Result:     ndn.InterestResultTimeout,
+								NackReason: spec.NackReasonNone,
+							})
 						})
 					} else {
 						e.log.Fatalf("PIT has empty entry. This should not happen. Please check the implementation.")
